@@ -284,6 +284,20 @@ RULES['C16'] = 'cases 0-299: complete grid {0,1,9,10,11,16,17,31,32,33,63,64,65,
 ASSUME['C16'] = ['the 4x32-bit domain is sampled and boundary-biased, not covered: the symbolic query named in the property quantifier is outside this technique family',
                  '"zero fields take the per-width defaults" is checked as: replacing a zero field by the value the all-zero definition of that width yields gives the same result (no independent table of defaults exists in the documentation)']
 
+C10_ENV = {'ASAN_OPTIONS': 'abort_on_error=1:detect_leaks=1:allocator_may_return_null=1:max_allocation_size_mb=1024:handle_abort=1:leak_check_at_exit=0',
+           'UBSAN_OPTIONS': 'print_stacktrace=1', 'LSAN_OPTIONS': 'print_suppressions=0'}
+CHECKS['C10'] = [dict(harness='h_api', variant='asan', args=[], quick=2000, thorough=150000, props=['C10'], name='api', env=C10_ENV),
+                 dict(harness='h_file', variant='asan', args=['--mode', 'c01'], quick=60, thorough=2000, props=['C10'], name='asan-c01', env=C10_ENV),
+                 dict(harness='h_file', variant='asan', args=['--mode', 'c09'], quick=60, thorough=2000, props=['C10'], name='asan-c09', env=C10_ENV),
+                 dict(harness='h_file', variant='asan', args=['--mode', 'c12'], quick=40, thorough=1000, props=['C10'], name='asan-c12', env=C10_ENV),
+                 dict(harness='h_file', variant='asan', args=['--mode', 'c13'], quick=40, thorough=1000, props=['C10'], name='asan-c13', env=C10_ENV),
+                 dict(harness='h_file', variant='asan', args=['--mode', 'mix'], quick=40, thorough=1000, props=['C10'], name='asan-mix', env=C10_ENV)]
+LEVELS['C10'] = 'exploration'
+RULES['C10'] = 'case = call sequence over the public API: a writer phase (sync or threaded; ids from {defined, 0, 255, 256, 300, 4095, 65535}, definition parameters from {0,1,9,10,255,65535..UINT32_MAX}, NULL/empty/UTF-8/70 KiB/1 MiB strings, lengths 0..70000, payloads up to 3 MiB) followed by 1-4 phases of reader calls on the written file or on a missing/non-JLS/truncated/bit-damaged file (windows negative/0/in range/one past/INT64_MAX, exact-size buffers, NULL callbacks), jls_copy, raw navigation at arbitrary offsets, statistics/crc. One AddressSanitizer+UBSan(bounds,null,div-by-zero,...) process per sequence with a CPU limit; LeakSanitizer is run once every handle is closed. The well-formed generators of C01/C09/C12/C13/mix are replayed under the same build (exact caller buffers). Violation key = (termination kind, sanitizer report kind, first frame in /repo/src, API call in flight). distinct = API functions reached + (function, error code) pairs observed'
+ASSUME['C10'] = ['AddressSanitizer is a red-zone tool: non-adjacent and intra-object overflows and reuse beyond the quarantine are not detected',
+                 'UBSan is restricted to bounds, null, object-size, vla-bound, unreachable, nonnull-attribute and integer-divide-by-zero: the tree contains benign alignment / pointer-overflow instances that no property forbids',
+                 '"valid pointers": NULL is passed only where the headers allow an absent value (strings of definitions, zero-length data, optional outputs) and for callbacks']
+
 # ------------------------------------------------------------------------------------------
 def load_known():
     p = os.path.join(VERIF, 'known_findings.json')
@@ -454,7 +468,10 @@ def run_check(prop, tier, seed, jobs, replay=None):
                             counts['tsan_reports_seen'] = counts.get('tsan_reports_seen', 0) + rec['stderr'].count('WARNING: ThreadSanitizer')
                             continue
                         kind, frame = frame_of(rec.get('stderr', ''))
-                        key = 'abnormal|%s|%s|%s|%s' % (rec['how'] if rec['how'] != 'signal 6' or not kind else 'sanitizer', kind or '-', frame or '-', rec.get('api') or '-')
+                        if frame:
+                            key = 'abnormal|%s|%s' % (kind or rec['how'], frame)
+                        else:
+                            key = 'abnormal|%s|%s|%s' % (rec['how'], kind or '-', rec.get('api') or '-')
                         k = (prop, key)
                         violn[k] = violn.get(k, 0) + 1
                         if k not in viol:
